@@ -371,13 +371,22 @@ def run_snapshot(prog):
     # the comparison itself: any difference counts. Everything that touches the states after the read *removes* them
     # (macro cancel on release, override release-on-activation), so `>` ("more states than before") never fires
     cmpop = None
-    if rv["k"] == "bin":
-        cmpop = rv.get("op")
-    elif rv["k"] == "use" and is_place(rv["a"]) and not proj(rv["a"]):
-        d0 = f.single_def(rv["a"]["l"])
-        if d0 and d0[2] == "assign" and d0[3]["k"] == "bin":
-            cmpop = d0[3].get("op")
-    okc = cmpop in ("Ne", "Eq", None)
+    from kq.core import rvalue_operands as _rvo2
+    seen_c, wl_c, cmps = set(), [rv], []
+    while wl_c:
+        r_ = wl_c.pop()
+        if r_["k"] == "bin" and r_.get("op") in ("Ne", "Eq", "Lt", "Le", "Gt", "Ge"):
+            cmps.append(r_["op"])
+            continue
+        for o_ in _rvo2(r_):
+            if is_place(o_) and not proj(o_) and o_["l"] not in seen_c:
+                seen_c.add(o_["l"])
+                for dd_ in f.defs().get(o_["l"], []):
+                    if dd_[2] == "assign":
+                        wl_c.append(dd_[3])
+    bad_c = [c_ for c_ in cmps if c_ not in ("Ne", "Eq")]
+    cmpop = bad_c[0] if bad_c else (cmps[0] if cmps else None)
+    okc = not bad_c and bool(cmps)
     res.inst("comparison", where="%s:%s" % (f.file, f.line_of(bi, si)), operator=cmpop, ok=okc)
     res.oblige(okc)
     if not okc:
